@@ -230,7 +230,7 @@ theorem C13_ctx_sep (c c' n n' : Str) (h : c ≠ c') :
   · show viewOf true c (keyOf true c n) = some n
     rw [viewOf_tuple]; simp
   · intro e
-    simp only [current, keyOf, if_true, Prod.mk.injEq, true_and] at e
+    simp only [current_eq, keyOf, if_true, Prod.mk.injEq, true_and] at e
     exact e
 
 /-- **Regression statement about the pre-fix key scheme** (`f"{ctx}.{name}"` + `startswith`): it separated contexts
@@ -290,6 +290,9 @@ theorem C13_foreign (ops : List (Op κ)) (op : Op κ) (x : Task)
   | exit t =>
     simp only [step] at hin
     rw [(exit_queue _ t).1] at hin; exact absurd hin hnew
+  | endBody t =>
+    simp only [step] at hin
+    rw [(endBody_fields _ t).2.2.2.2.2.2.2.1] at hin; exact absurd hin hnew
   | decoNew t k km =>
     simp only [step, decoNewStep] at hin
     split at hin
@@ -340,7 +343,7 @@ theorem C13_decorator_legacy (s : St κ) (t : Task) (k : κ) (km : Bool) :
     (canStep s t = true → s.owner k ≠ some t →
       canStep (decoLegacyStep current s t k km) t = decoRuns s k km) := by
   have e0 : decoLegacyStep current s t k km = uniqueStep s t k km := by
-    simp [decoLegacyStep, current]
+    simp [decoLegacyStep, current_eq]
   have hclaim : ∀ v : St κ, (claim v t k).live = v.live ∧ (claim v t k).parked = v.parked := fun v =>
     ⟨(claim_queue v t k).2.2.2.2.2, (claim_queue v t k).2.2.2.2.1⟩
   refine ⟨e0, ?_, ?_⟩
@@ -426,7 +429,7 @@ theorem C13_regress_decorator_legacy_race :
 the guarded first segment is the claim. -/
 theorem C13_decorator_legacy_any_name (s : St κ) (t : Task) (k : κ) (km nonEmpty : Bool) :
     decoLegacyNamed current s t k km nonEmpty = uniqueStep s t k km := by
-  simp [decoLegacyNamed, decoLegacyStep, current]
+  simp [decoLegacyNamed, decoLegacyStep, current_eq]
 
 /-- **Regression witness (C13-F3, fixed by /repo dc7ca82)**: with the truthiness guard two runs of a function decorated
 `@task_unique("")` (key 7 here) both stayed alive – neither claimed; now the second displaces the first. -/
@@ -445,6 +448,165 @@ theorem C13_reaper_drains (s : St κ) :
     (drain s.reaperQ.length s).reaperQ = [] ∧ ∀ t ∈ s.reaperQ, (drain s.reaperQ.length s).live t = false := by
   obtain ⟨a, c, _⟩ := drain_spec s.reaperQ.length s rfl
   exact ⟨a, c⟩
+
+
+/-! ### the done-callback phase of `run_coro`'s `finally`
+
+Between the end of its body (`endBody`) and the release block (`exit`) a task runs its done-callbacks: further segments of
+the same, still running task, which may suspend – so every other task's steps, `task.unique` included, interleave with
+them – and may call `task.unique` themselves.  `run ops` ranges over all such interleavings, hence `C13_maps_inv`,
+`C13_mutex`, `C13_displaced`, `C13_release` … hold across the callback phase as they stand.  What is special about the
+phase is stated here. -/
+
+/-- **The end of a task's body releases nothing.**  Both maps, `our_tasks`, the reaper queue and every pending
+cancellation are untouched; the task is running, owns what it owned, and – even if it had been halted by kill_me – runs
+segments again (its done-callbacks). -/
+theorem C13_body_end_keeps_names (s : St κ) (t : Task) (hl : s.live t = true) :
+    let s' := step s (.endBody t)
+    s'.owner = s.owner ∧ s'.names = s.names ∧ s'.entry = s.entry ∧ s'.ours = s.ours ∧ s'.live = s.live ∧
+    s'.reaperQ = s.reaperQ ∧ s'.cancelReq = s.cancelReq ∧ canStep s' t = true := by
+  obtain ⟨e1, e2, e3, e4, e5, _, _, e8, e9, _⟩ := endBody_fields s t
+  refine ⟨e1, e2, e3, e4, e5, e8, e9, ?_⟩
+  simp [step, endBodyStep, canStep, hl]
+
+/-- **A name changes hands in exactly two ways** (all reachable states, every step – the steps of the owner's own
+done-callbacks and everybody else's steps during them included): the owner's release block runs (`exit`), or somebody
+claims that very key.  In particular the release block of ANOTHER task never takes a name away from its owner, whatever
+that other task owned earlier. -/
+theorem C13_name_kept (ops : List (Op κ)) (op : Op κ) (k : κ) (t : Task)
+    (hown : (run ops).owner k = some t) (hx : op ≠ .exit t)
+    (hu : ∀ u km, op ≠ .unique u k km) (hd : ∀ u km, op ≠ .decoNew u k km) :
+    (step (run ops) op).owner k = some t := by
+  have h := inv_run ops
+  cases op with
+  | spawn u fg =>
+    simp only [step, spawnStep]; split <;> exact hown
+  | unique u k' km =>
+    have hk : k ≠ k' := fun e => hu u km (by rw [e])
+    rw [(C13_other_keys ops u k' k km hk).1]; exact hown
+  | reap =>
+    show (reapStep (run ops)).owner k = some t
+    rw [(reap_fields (run ops)).1]; exact hown
+  | exit u =>
+    have hut : u ≠ t := fun e => hx (by rw [e])
+    simp only [step]
+    by_cases hl : (run ops).live u = true
+    · rw [exit_eq (run ops) u h.maps hl]
+      simp only []
+      have : k ∉ (run ops).names u := by
+        intro hk
+        have := h.names_own k u hk
+        rw [hown] at this
+        exact hut (Option.some.inj this).symm
+      simp [this, hown]
+    · rw [exit_dead (run ops) u hl]; exact hown
+  | decoNew u k' km =>
+    have hk : k ≠ k' := fun e => hd u km (by rw [e])
+    rw [(C13_other_keys ops u k' k km hk).2.2]; exact hown
+  | endBody u =>
+    simp only [step]; rw [(endBody_fields _ u).1]; exact hown
+
+/-- **A claim that arrives while the owner is inside a (suspended) done-callback** – the schedule of seeded change
+C13_7: task 0 owns key 7, its body ends, its done-callback suspends; task 1 claims 7 (task 0 is handed to the reaper, its
+set loses the name), the reaper delivers, task 0's callback is cancelled and its release block runs: task 1 is STILL the
+owner in both maps; a third claimer then displaces task 1, not nobody.  And a name claimed BY a done-callback (key 9,
+claimed by task 0 after its body ended) is released by the release block that follows. -/
+theorem C13_claim_during_callback :
+    let pre : List (Op Nat) := [.spawn 0 false, .spawn 1 false, .spawn 2 false, .unique 0 7 false, .endBody 0,
+                                .unique 0 9 false, .unique 1 7 false]
+    let s1 := run pre
+    let s2 := run (pre ++ [.reap, .exit 0])
+    let s3 := run (pre ++ [.reap, .exit 0, .unique 2 7 false])
+    (s1.owner 7 = some 1 ∧ s1.owner 9 = some 0 ∧ s1.names 0 = [9] ∧ s1.names 1 = [7] ∧ s1.reaperQ = [0]) ∧
+    (s2.owner 7 = some 1 ∧ s2.names 1 = [7] ∧ s2.owner 9 = none ∧ s2.entry 0 = false ∧ s2.live 0 = false ∧
+     s2.live 1 = true) ∧
+    (s3.owner 7 = some 2 ∧ s3.reaperQ = [1]) := by
+  decide
+
+/-- a task halted by `kill_me` whose cancellation was delivered runs its done-callbacks, and a done-callback may claim:
+task 1 parks on key 7 (owned by task 0), is reaped, its body ends, its callback claims key 8 and keeps it until its
+release block -/
+theorem C13_halted_task_runs_callbacks :
+    let pre : List (Op Nat) := [.spawn 0 false, .spawn 1 false, .unique 0 7 false, .unique 1 7 true, .reap]
+    (canStep (run pre) 1 = false ∧ (run pre).cancelReq 1 = true) ∧
+    (canStep (run (pre ++ [.endBody 1])) 1 = true ∧
+     (run (pre ++ [.endBody 1, .unique 1 8 false])).owner 8 = some 1 ∧
+     (run (pre ++ [.endBody 1, .unique 1 8 false])).owner 7 = some 0 ∧
+     (run (pre ++ [.endBody 1, .unique 1 8 false, .exit 1])).owner 8 = none) := by
+  decide
+
+/-! ### the tie to the source: the shape tables extracted from function.py / trigger.py / decorators/task.py -/
+
+/-- **The extracted shape is the proved shape.**  `Shape.extracted` / `shapeFacts` are regenerated from the working tree
+on every run (`tools/extractors/C13.py`): block order and guards of `task_unique`, the maps a claim stores into, the
+registries the release block of `run_coro` clears and their order, one FIFO reaper queue, release inside a `finally`
+without an await, dispatcher check before the task is made, decorator = check + plain claim. -/
+theorem C13_shape_tie : Shape.extracted = Shape.proved ∧ shapeFacts = [true, true, true, true, true] := by
+  decide
+
+/-- `task_unique` assembled from the shape table is the `uniqueStep` the theorems are about -/
+theorem C13_shape_unique (s : St κ) (t : Task) (k : κ) (km : Bool) :
+    uniqueStepSh Shape.proved s t k km = uniqueStep s t k km := by
+  unfold uniqueStepSh uniqueStep
+  by_cases hc : canStep s t = true
+  · simp only [hc, Bool.not_true, Bool.false_eq_true, if_false, Shape.proved, if_true]
+    cases hown : s.owner k with
+    | none => simp [killArmSh, hown, claimSh, claim, setOwnerSh, setOwner]
+    | some o =>
+      cases km with
+      | true =>
+        by_cases hot : o = t
+        · subst hot
+          simp [killArmSh, hown, claimSh, claim, setOwnerSh, setOwner]
+        · simp [killArmSh, hown, hot]
+      | false =>
+        by_cases hot : o = t
+        · subst hot
+          simp [killArmSh, hown, killPrev, claimSh, claim, setOwnerSh, setOwner]
+        · by_cases hoo : s.ours o = true
+          · simp [killArmSh, hown, hot, hoo, killPrev, claimSh, claim, setOwnerSh, setOwner, enqueue]
+          · have hoo' : s.ours o = false := not_true_false hoo
+            simp [killArmSh, hown, hot, hoo', killPrev, claimSh, claim, setOwnerSh, setOwner]
+  · have : canStep s t = false := not_true_false hc
+    simp [this]
+
+/-- the release block assembled from the order table is the `exitStep` the theorems are about -/
+theorem C13_shape_release (s : St κ) (t : Task) : exitStepSh Shape.proved s t = exitStep s t := by
+  unfold exitStepSh exitStep
+  cases hl : s.live t <;> cases he : s.entry t <;> cases hd : delErr s.owner (s.names t) <;>
+    simp [releaseAll, releaseOne, Shape.proved, he, hd]
+
+/-- **The model the driver replays observed runs with – every step assembled from the extracted tables and flags – is
+the model of the theorems.** -/
+theorem C13_shape_step (s : St κ) (op : Op κ) : stepSh Shape.extracted current s op = step s op := by
+  rw [C13_shape_tie.1]
+  cases op with
+  | spawn t fg => rfl
+  | unique t k km => exact C13_shape_unique s t k km
+  | reap => rfl
+  | exit t => exact C13_shape_release s t
+  | decoNew t k km =>
+    simp only [stepSh, step, decoNewStep]
+    split
+    · exact C13_shape_unique s t k false
+    · rfl
+  | endBody t => rfl
+
+/-- each extracted guard matters: with the `task in our_tasks` conjunct of the displacing arm gone a task that pyscript
+did not start is handed to the reaper (`C13_foreign` fails); with the `discard` gone the maps stop being inverse; with
+the release order starting at `our_tasks` and lacking `unique_name2task` a dead task keeps its name -/
+theorem C13_shape_flags_matter :
+    let pre : List (Op Nat) := [.spawn 0 true, .spawn 1 false]
+    let s := run pre
+    (uniqueStepSh { Shape.proved with killOnlyOurs := false }
+        ({ s with owner := upd s.owner 7 (some 0) }) 1 7 false).reaperQ = [0] ∧
+    (uniqueStepSh Shape.proved ({ s with owner := upd s.owner 7 (some 0) }) 1 7 false).reaperQ = [] ∧
+    (let s2 := run [.spawn 0 false, .spawn 1 false, .unique 0 7 false]
+     (uniqueStepSh { Shape.proved with claimDiscardsOld := false } s2 1 7 false).names 0 = [7] ∧
+     (uniqueStepSh Shape.proved s2 1 7 false).names 0 = [] ∧
+     (exitStepSh { Shape.proved with releaseOrder := [.unique_task2name, .our_tasks] } s2 0).owner 7 = some 0 ∧
+     (exitStepSh Shape.proved s2 0).owner 7 = none) := by
+  decide
 
 /-! non-vacuity of the hypotheses used above -/
 example : canStep (run [Op.spawn 0 false, Op.unique 0 (3 : Nat) false]) 0 = true ∧
